@@ -315,6 +315,46 @@ func run(c *hc.Ctx) error {
 		}
 	}
 
+	// ---- 3b. large frames compared with the model in full (payload described by a generator shared with
+	// the driver; lengths and CRC-32s are compared instead of megabytes of hex)
+	for i := 0; i < c.N(4, 60); i++ {
+		kind := c16c17.Kinds[i%4]
+		l := 4 * r.Range(1<<13, 1<<15) // 32–128 KiB
+		if c.Thorough() {
+			l = 4 * hc.Pick(r, r.Range(1<<16, 1<<18), r.Range(1<<18, 1<<20)) // up to 4 MiB
+		}
+		seed, last := r.Intn(256), r.Intn(256)
+		p := make([]byte, l)
+		for j := range p {
+			p[j] = byte(seed + j + j/256)
+		}
+		p[l-1] = byte(last)
+		seq := int64(r.Intn(9))
+		rnd := r.Bytes(4)
+		var wire bytes.Buffer
+		line := fmt.Sprintf("bigrt %s %d %s %d %d %d", kind, seq, hc.Hex(rnd), l, seed, last)
+		c.Eval(line, true)
+		c.Count("frame." + kind + ".large-full-compare")
+		if err, pn := writeOne(kind, c16c17.NewCodec(kind, seq), &wire, append([]byte{}, p...), rnd); err != nil || pn != nil {
+			fail(c, "write-error:"+kind, line, fmt.Sprint(err, pn))
+			continue
+		}
+		wb := append(append([]byte{}, wire.Bytes()...), 0xaa)
+		rd := &c16c17.Chunked{Data: wb, Rng: r.Fork(), Mode: hc.Pick(r, 0, 2)}
+		res := c16c17.ReadOne(c16c17.NewCodec(kind, seq), rd)
+		back := ""
+		if strings.HasPrefix(res.Outcome, "ok ") {
+			back = fmt.Sprintf("ok %d %d %d", len(res.Frame), c16c17.CRC(res.Frame), len(wb)-rd.Pos)
+			if !bytes.Equal(res.Frame, p) {
+				fail(c, "roundtrip:"+kind, line, "large frame altered")
+			}
+		} else {
+			back = res.Outcome
+			fail(c, "roundtrip:"+kind, line, "large frame not read back: "+clip(res.Outcome))
+		}
+		add(line, fmt.Sprintf("%d %d | %s", wire.Len(), c16c17.CRC(wire.Bytes()), back))
+	}
+
 	// ---- 4. headers + detection (transport.detectCodec, transport.Listen)
 	for i := 0; i < c.N(400, 20000); i++ {
 		kind := hc.Pick(r, c16c17.Kinds...)
